@@ -250,7 +250,8 @@ class SegHist:
         if A['pos'] < 0:
             r = st.result
             if not (is_enum(r) and z3.is_bv_value(r[1]) and r[1].as_long() == 1):
-                raise Unsupported('SegExpTree::new returned None for the harness domain')
+                s.res['new_is_none'] = True
+                return None
             st.heap['tree'] = r[2][0]
             return s.next_op(eng, st)
         op = s.template[A['pos']]
